@@ -21,5 +21,5 @@ git -C /repo checkout -- .
 # the generated tables were regenerated from the mutated tree: regenerate them from the restored one
 for t in ext_layout sql_tables lock_table keyring_prog sites media_consts tx_brackets; do python3 tools/translate/$t.py >/dev/null 2>&1; done
 rm -rf evidence; mv .cache/evidence_backup evidence
-echo "$res" > seeded/$id/result.json
-python3 -c "import json;json.load(open('seeded/$id/result.json'))" || echo "result.json invalid"
+echo "$res" > seeded/$id/${RESULT_NAME:-result.json}
+python3 -c "import json,sys;json.load(open(sys.argv[1]))" seeded/$id/${RESULT_NAME:-result.json} || echo "result.json invalid"
